@@ -104,6 +104,7 @@ package procbuilder
 //@        (arch.Modes[0] == "ha" || arch.Modes[0] == "vn" || arch.Modes[0] == "hy") && 1 <= len(arch.Op) && len(arch.Op) <= 32768 &&
 //@        (forall k int :: 0 <= k && k < len(arch.Op) ==> arch.Op[k] != nil)
 
+//@ props C16
 //@ interface Opcode method Op_get_name() string
 //@   reads nothing
 //@   pure
@@ -113,6 +114,7 @@ package procbuilder
 //@   requires arch != nil && len(arch.Modes) >= 1
 //@   pure
 
+//@ props C16 C03
 //@ func (arch *Arch) Max_word() int
 //@   reads arch.R, arch.Rsize, arch.N, arch.M, arch.L, arch.O, arch.Modes, arch.Modes[*], arch.Op, arch.Shared_constraints, arch.Tag, arch.WordSize, arch.Op[*]
 //@   requires arch != nil && len(arch.Modes) >= 1 && (forall k int :: 0 <= k && k < len(arch.Op) ==> arch.Op[k] != nil)
